@@ -531,6 +531,93 @@ def boost_waived_parent(rng, case):
     return case
 
 
+def _isolate_crate(rng, case, notes_start):
+    """pick a single-version crates.io crate D, exempt everything else, strip every record of D; -> (D's package, notes)"""
+    store = case["store_struct"]
+    pkgs = case["graph"]["packages"]
+    notes = Notes()
+    notes.n = notes_start
+    crits = _crits(store)
+    tv = _third_versions(case)
+    single = sorted(n for n, vs in tv.items() if len(vs) == 1 and "@" not in vs[0]
+                    and sum(1 for p in pkgs if p["name"] == n) == 1
+                    and all(p["source"] == "registry" for p in pkgs if p["name"] == n))
+    if not single:
+        return None, notes
+    d = rng.choice(single)
+    dp = next(p for p in pkgs if p["name"] == d)
+    for n, l in store["audits"].items():
+        store["audits"][n] = [a for a in l if a.get("kind") != "violation"]
+    for f in store["lock"]["audits"].values():
+        for n, l in f.get("audits", {}).items():
+            f["audits"][n] = [a for a in l if a.get("kind") != "violation"]
+    blanket_exemptions(store, pkgs, crits, notes, d)
+    for tbl in ("audits", "wildcard_audits", "trusted", "exemptions"):
+        store[tbl].pop(d, None)
+    for f in store["lock"]["audits"].values():
+        f.get("audits", {}).pop(d, None)
+        f.get("wildcard_audits", {}).pop(d, None)
+    store["lock"]["publisher"].pop(d, None)
+    store["lock"]["unpublished"].pop(d, None)
+    return dp, notes
+
+
+def boost_empty_exemption(rng, case):
+    """a store that vets except for one crate whose only record is an exemption listing NO criteria (the key is optional):
+    such an exemption certifies nothing"""
+    dp, notes = _isolate_crate(rng, case, 3800)
+    if dp is None:
+        return case
+    store = case["store_struct"]
+    store["exemptions"][dp["name"]] = [{"version": vstr(dp), "criteria": [], "suggest": rng.random() < 0.5, "notes": notes()}]
+    if rng.random() < 0.4:
+        store["default-criteria"] = rng.choice(["safe-to-deploy", "safe-to-run"])
+    return case
+
+
+def boost_two_trusted(rng, case):
+    """a store that vets in which one crate is certified ONLY by the second of two trusted entries for the same publisher
+    (the first one grants a criterion the crate does not need): each entry counts for its own criteria"""
+    dp, notes = _isolate_crate(rng, case, 3900)
+    if dp is None:
+        return case
+    store = case["store_struct"]
+    crits = _crits(store)
+    uid = rng.randint(1, 3)
+    store["lock"]["publisher"][dp["name"]] = [{"version": vstr(dp), "when": "2022-06-15", "user-id": uid,
+                                               "user-login": f"user{uid}", "user-name": f"User {uid}"}]
+    customs = [c for c in crits if c not in BUILTINS]
+    every = ["safe-to-deploy"] + customs
+    weak = rng.choice([["safe-to-run"]] + ([[customs[0]]] if customs and not store["criteria"][customs[0]].get("implies") else []))
+    a = {"user-id": uid, "start": "2022-01-01", "end": "2023-01-01", "criteria": weak, "notes": notes()}
+    b = {"user-id": uid, "start": "2022-01-02", "end": "2022-12-31", "criteria": every, "notes": notes()}
+    store["trusted"][dp["name"]] = [a, b] if rng.random() < 0.6 else [b, a]
+    if rng.random() < 0.3:
+        store["trusted"][dp["name"]].insert(1, {"user-id": uid % 3 + 1, "start": "2022-01-01", "end": "2023-01-01", "criteria": every, "notes": notes()})
+    return case
+
+
+def boost_overlap_unversioned(rng, case):
+    """one crate NAME used by a path package and by a crates.io package of another version, with the usual unversioned
+    policy entry `audit-as-crates-io = false` (it is about the path copy): the crates.io copy is third-party all the same"""
+    store = case["store_struct"]
+    pkgs = case["graph"]["packages"]
+    tv = _third_versions(case)
+    single = sorted(n for n, vs in tv.items() if len(vs) == 1 and "@" not in vs[0]
+                    and all(p["source"] == "registry" for p in pkgs if p["name"] == n))
+    ws = [p for p in pkgs if p["workspace"]]
+    if not single or not ws:
+        return case
+    n = rng.choice(single)
+    tp = next(p for p in pkgs if p["name"] == n)
+    fv = rng.choice([x for x in VERSIONS if x != tp["version"] and "-" not in x] or ["1.0.0"])
+    pkgs.append({"name": n, "version": fv, "source": "path", "workspace": False, "deps": []})
+    rng.choice(ws)["deps"].append({"name": n, "version": fv, "source": "path", "kinds": ["normal"]})
+    store["policy"] = {k: v for k, v in store["policy"].items() if k.split(":")[0] != n}
+    store["policy"][n] = {"audit-as-crates-io": False}
+    return case
+
+
 def boost_exemptions(rng, case):
     store = case["store_struct"]
     notes = Notes()
@@ -1037,7 +1124,8 @@ def boost_unpublished(rng, pkgs, store, reg, crits, notes, peers_struct=None):
         return
     if rng.random() < 0.7:
         # move the crate to a high version so that two published versions can lie below it
-        nv = rng.choice(["4.0.0", "5.0.0"])
+        # ... or to a low one, so that nothing earlier is published and the NEXT LATER published version stands in
+        nv = rng.choice(["4.0.0", "5.0.0", "5.0.0", "1.0.0", "2.0.0"])
         for q in pkgs:
             for d in q["deps"]:
                 if d["name"] == p["name"] and d["version"] == p["version"] and d["source"] == p["source"]:
@@ -1354,6 +1442,42 @@ def scenario_stale_unpublished(cid, k=0):
             "store": render_store(store), "steps": [{"args": a, "remote": remote} for a in cmds]}
 
 
+def gen_unpublished_verdict_case(rng, cid):
+    """a path crate declared audit-as-crates-io whose own version crates.io does not serve; crates.io serves one to three
+    other versions.  The property: it is vetted as the nearest earlier (else the next later) published version.  Variants:
+    that version is fully audited (must pass, unlocked, and locked on the recorded choice even after crates.io has
+    published the exact version); only ANOTHER published version is audited (must fail for the crate)."""
+    plain = [x for x in VERSIONS if "-" not in x]
+    v = rng.choice(plain)
+    others = [x for x in plain if x != v]
+    served = sorted(rng.sample(others, rng.choice([1, 2, 2, 3])), key=VERSIONS.index)
+    me = VERSIONS.index(v)
+    below = [x for x in served if VERSIONS.index(x) < me]
+    want = below[-1] if below else served[0]
+    variant = rng.choice(["audited", "audited", "locked", "locked-published", "other"])
+    if variant == "other" and len(served) < 2:
+        variant = "audited"
+    crit = rng.choice([["safe-to-deploy"], ["safe-to-deploy"], ["safe-to-run", "safe-to-deploy"]])
+    audited = want if variant != "other" else rng.choice([x for x in served if x != want])
+    pkgs = [{"name": "wsaaa", "version": "1.0.0", "source": "path", "workspace": True,
+             "deps": [{"name": "fpxxx", "version": v, "source": "path", "kinds": ["normal"]}]},
+            {"name": "fpxxx", "version": v, "source": "path", "workspace": False, "deps": []}]
+    store = {"criteria": {}, "policy": {"fpxxx": {"audit-as-crates-io": True}}, "imports": {}, "exemptions": {},
+             "audits": {"fpxxx": [{"kind": "full", "version": audited, "criteria": crit, "notes": "a published version"}]},
+             "wildcard_audits": {}, "trusted": {}, "lock": {"audits": {}, "publisher": {}, "unpublished": {}}}
+    locked = variant.startswith("locked")
+    if locked:
+        store["lock"]["unpublished"]["fpxxx"] = [{"version": v, "audited_as": want}]
+    reg = [{"version": x, "by": 1, "when": "2022-01-01"} for x in served]
+    if variant == "locked-published":
+        reg = sorted(reg + [{"version": v, "by": 1, "when": "2022-12-31"}], key=lambda r: VERSIONS.index(r["version"]))
+    case = {"id": cid, "kind": "resolve", "graph": {"packages": pkgs}, "store_struct": store, "peers_struct": {},
+            "registry": {"users": [[1, "user1", "User 1"]], "packages": {"fpxxx": reg}, "meta": {"fpxxx": {"description": "whatever"}}},
+            "mode": "locked" if locked else "unlocked", "allow_criteria_changes": True,
+            "unpublished_verdict": {"variant": variant, "version": v, "served": served, "stands_in": want, "audited": audited}}
+    return finalize(case)
+
+
 def gen_stale_exclude_case(rng, cid):
     """locked load: one to three imports, one of which excludes a crate (or not); imports.lock may still hold audits or
     wildcard audits for that crate under that very import (from before the exclusion).  Whichever position the
@@ -1416,6 +1540,126 @@ def scenario_violation_before_audit(cid, k=0):
     cmds = [["check"], ["check", "--locked"], ["prune"], ["check", "--locked"]]
     return {"id": cid, "kind": "history", "graph": {"packages": pkgs}, "store_struct": store,
             "store": render_store(store), "steps": [{"args": a, "remote": remote} for a in cmds]}
+
+
+def scenario_unmapped_before_needed(cid, k=0):
+    """deterministic history: a peer's file lists, BEFORE the audit the project needs, an audit for a criterion of the
+    peer's own that the import does not map (it means nothing here); imports.lock is empty.  A successful unlocked check
+    must record the needed audit, so that `--locked` succeeds on what it wrote."""
+    peer, url = PEERS[0]
+    pkgs = [{"name": "wsaaa", "version": "1.0.0", "source": "path", "workspace": True,
+             "deps": [{"name": "tpaaa", "version": "2.0.0", "source": "registry", "kinds": ["normal"]}]},
+            {"name": "tpaaa", "version": "2.0.0", "source": "registry", "workspace": False, "deps": []}]
+    store = {"criteria": {}, "policy": {}, "imports": {peer: {"url": [url]}}, "exemptions": {}, "audits": {},
+             "wildcard_audits": {}, "trusted": {},
+             "lock": {"audits": {peer: {"criteria": {}, "audits": {}, "wildcard_audits": {}}}, "publisher": {}, "unpublished": {}}}
+    listed = [{"kind": "full", "version": ["1.0.0", "2.0.0"][k % 2], "criteria": ["peer-x"], "notes": "means nothing to the importer"},
+              {"kind": "full", "version": "2.0.0", "criteria": ["safe-to-deploy"], "notes": "the needed one"}]
+    if k % 2:
+        listed.insert(1, {"kind": "delta", "from": "1.0.0", "to": "2.0.0", "criteria": ["peer-x"], "notes": "nor does this"})
+    peers = {url: {"criteria": {"peer-x": {"description": "the peer's own"}}, "audits": {"tpaaa": listed}, "wildcard_audits": {}, "trusted": {}}}
+    registry = {"users": [[1, "user1", "User 1"]], "packages": {"tpaaa": [{"version": "2.0.0", "by": 1, "when": "2022-01-01"}]}, "meta": {}}
+    remote = render_remote(peers, registry)
+    cmds = [["check"], ["check", "--locked"], ["prune"], ["check", "--locked"]]
+    return {"id": cid, "kind": "history", "graph": {"packages": pkgs}, "store_struct": store,
+            "store": render_store(store), "steps": [{"args": a, "remote": remote} for a in cmds]}
+
+
+def scenario_duplicate_exemptions(cid, k=0):
+    """deterministic history: config.toml lists one exemption twice (a hand merge), followed by (k=0) or after (k=1) the
+    exemption of the other version in use; nothing else certifies the crate.  The store passes; every store-rewriting
+    command must leave it passing."""
+    pkgs = [{"name": "wsaaa", "version": "1.0.0", "source": "path", "workspace": True,
+             "deps": [{"name": "tpaaa", "version": "2.0.0", "source": "registry", "kinds": ["normal"]},
+                      {"name": "tpbbb", "version": "1.0.0", "source": "registry", "kinds": ["normal"]}]},
+            {"name": "tpaaa", "version": "2.0.0", "source": "registry", "workspace": False, "deps": []},
+            {"name": "tpaaa", "version": "1.0.0", "source": "registry", "workspace": False, "deps": []},
+            {"name": "tpbbb", "version": "1.0.0", "source": "registry", "workspace": False,
+             "deps": [{"name": "tpaaa", "version": "1.0.0", "source": "registry", "kinds": ["normal"]}]}]
+    dup = {"version": "1.0.0", "criteria": ["safe-to-deploy"], "suggest": True, "notes": "merged twice"}
+    other = {"version": "2.0.0", "criteria": ["safe-to-deploy"], "suggest": True, "notes": "the other version"}
+    ex = [dict(dup), dict(dup), other] if k % 2 == 0 else [other, dict(dup), dict(dup)]
+    store = {"criteria": {}, "policy": {}, "imports": {}, "audits": {}, "wildcard_audits": {}, "trusted": {},
+             "exemptions": {"tpaaa": ex, "tpbbb": [{"version": "1.0.0", "criteria": ["safe-to-deploy"], "suggest": True, "notes": "n"}]},
+             "lock": {"audits": {}, "publisher": {}, "unpublished": {}}}
+    registry = {"users": [[1, "user1", "User 1"]], "packages": {}, "meta": {}}
+    remote = render_remote({}, registry)
+    cmds = [[["prune"], ["check", "--locked"], ["prune"]],
+            [["check"], ["prune"], ["check", "--locked"]]][k % 2]
+    return {"id": cid, "kind": "history", "graph": {"packages": pkgs}, "store_struct": store,
+            "store": render_store(store), "steps": [{"args": a, "remote": remote} for a in cmds]}
+
+
+def scenario_trusted_vs_recorded_audit(cid, k=0):
+    """deterministic history: a crate must meet two criteria that do not imply each other; a peer audit for ONE of them is
+    already recorded in imports.lock; the project trusts the crate's publisher for BOTH, and no publisher record has been
+    fetched yet.  On the unchanged tree `prune` reaches a fixed point at once (the recorded audit keeps winning the tie
+    against the trusted entry once the publisher record is no longer fresh), so a second prune, and the check after it,
+    change nothing.  `strict`: the known finding F-C13-prune does not list this history."""
+    peer, url = PEERS[0]
+    pkgs = [{"name": "wsaaa", "version": "1.0.0", "source": "path", "workspace": True,
+             "deps": [{"name": "tpaaa", "version": "2.0.0", "source": "registry", "kinds": ["normal"]}]},
+            {"name": "tpaaa", "version": "2.0.0", "source": "registry", "workspace": False, "deps": []}]
+    audit = {"kind": "full", "version": "2.0.0", "criteria": ["safe-to-deploy"], "notes": "recorded earlier"}
+    imp = {"url": [url]}
+    ptable = {}
+    paudit = dict(audit)
+    if k % 2:
+        ptable = {"peer-x": {"description": "the peer's own"}}
+        imp["criteria-map"] = {"peer-x": ["crit-a"]}
+        paudit["criteria"] = ["peer-x"]
+        audit["criteria"] = ["crit-a"]
+    store = {"criteria": {"crit-a": {"description": "a second, independent criterion", "implies": []}},
+             "policy": {"wsaaa": {"criteria": ["safe-to-deploy", "crit-a"]}}, "imports": {peer: imp}, "exemptions": {}, "audits": {},
+             "wildcard_audits": {},
+             "trusted": {"tpaaa": [{"user-id": 1, "start": "2022-01-01", "end": "2023-06-01", "criteria": ["safe-to-deploy", "crit-a"], "notes": "trusted"}]},
+             "lock": {"audits": {peer: {"criteria": {k_: {"description": v["description"]} for k_, v in ptable.items()},
+                                        "audits": {"tpaaa": [audit]}, "wildcard_audits": {}}}, "publisher": {}, "unpublished": {}}}
+    peers = {url: {"criteria": ptable, "audits": {"tpaaa": [paudit]}, "wildcard_audits": {}, "trusted": {}}}
+    registry = {"users": [[1, "user1", "User 1"]], "packages": {"tpaaa": [{"version": "2.0.0", "by": 1, "when": "2022-06-15"}]}, "meta": {}}
+    remote = render_remote(peers, registry)
+    cmds = [[["prune"], ["prune"], ["check"], ["prune"]],
+            [["check"], ["prune"], ["check"], ["regenerate", "imports"]]][k % 2]
+    return {"id": cid, "kind": "history", "strict": True, "graph": {"packages": pkgs}, "store_struct": store,
+            "store": render_store(store), "steps": [{"args": a, "remote": remote} for a in cmds]}
+
+
+GITREV2 = "89abcdef0123456789abcdef0123456789abcdef"
+
+
+def scenario_certify_collapse(cid, k=0):
+    """deterministic history: a git-sourced crate audited as crates.io; audits.toml holds a full audit of the published
+    version and a NON-importable delta from it to an earlier revision of the fork, recorded for a WEAKER criterion.  The
+    user certifies the delta from that revision to the revision in use for a STRONGER criterion (k=0: built-ins; k=1: custom
+    criteria; k=2: the same criterion — the one case in which cargo-vet may fold the two deltas into one).  A record for the
+    weaker criterion must not come to count for the stronger one."""
+    old, cur = "2.0.0@git:" + GITREV2, "2.0.0@git:" + GITREV
+    pkgs = [{"name": "wsaaa", "version": "1.0.0", "source": "path", "workspace": True,
+             "deps": [{"name": "fgaaa", "version": "2.0.0", "source": "git:" + GITREV, "kinds": ["normal"]}]},
+            {"name": "fgaaa", "version": "2.0.0", "source": "git:" + GITREV, "workspace": False, "deps": []}]
+    table = {}
+    strong, weak = ["safe-to-deploy"], ["safe-to-run"]
+    if k % 3 == 1:
+        table = {"crit-a": {"description": "strong", "implies": ["crit-b"]}, "crit-b": {"description": "weak", "implies": []}}
+        strong, weak = ["crit-a"], ["crit-b"]
+    if k % 3 == 2:
+        weak = strong
+    store = {"criteria": table, "policy": {"fgaaa": {"audit-as-crates-io": True}}, "imports": {}, "exemptions": {},
+             "audits": {"fgaaa": [{"kind": "full", "version": "2.0.0", "criteria": ["safe-to-deploy"] + (strong if table else []), "notes": "the release"},
+                                  {"kind": "delta", "from": "2.0.0", "to": old, "criteria": weak, "importable": False, "notes": "first look at the fork"}]},
+             "wildcard_audits": {}, "trusted": {}, "lock": {"audits": {}, "publisher": {}, "unpublished": {}}}
+    if table:
+        store["policy"]["wsaaa"] = {"criteria": ["safe-to-deploy", "crit-a"]}
+    registry = {"users": [[1, "user1", "User 1"]], "packages": {"fgaaa": [{"version": "2.0.0", "by": 1, "when": "2022-01-01"}]},
+                "meta": {"fgaaa": {"description": "whatever"}}}
+    remote = render_remote({}, registry)
+    cert = ["certify", "fgaaa", old, cur]
+    for c in strong:
+        cert += ["--criteria", c]
+    cmds = [cert + ["--accept-all", "--who", "tester", "--force"], ["check"], ["check", "--locked"]]
+    return {"id": cid, "kind": "history", "graph": {"packages": pkgs}, "store_struct": store,
+            "store": render_store(store), "steps": [{"args": a, "remote": remote} for a in cmds],
+            "certify_collapse": {"weak": weak, "strong": strong}}
 
 
 def scenario_unpublished_vs_peer(cid, k=0):
@@ -1852,6 +2096,12 @@ def gen_validate_case(rng, cid):
         else:
             text_fault = rng.choice(["truncate", "unknown-field", "wrong-type", "junk-peer"])
             faults.append({"kind": "text-" + text_fault})
+    if store["lock"]["audits"] and rng.random() < 0.12:
+        # an import renamed in config.toml without re-fetching: imports.lock still has the section under the old name
+        # (as many sections as imports, other names)
+        victim = rng.choice(sorted(store["lock"]["audits"]))
+        store["lock"]["audits"][rng.choice(["peer-renamed", "aaa-renamed", victim + "-old"])] = store["lock"]["audits"].pop(victim)
+        faults.append({"kind": "lock-peer-renamed", "name": victim})
     case = {"id": cid, "kind": "validate", "graph": base["graph"], "store_struct": store,
             "peers_struct": base["peers_struct"], "registry": base["registry"],
             "mode": "locked" if locked else "unlocked", "faults": faults}
@@ -2027,6 +2277,10 @@ def gen_unpack_case(rng, cid):
             {"path": f"{pre}/short.rs", "long_name": f"{pre}/" + "deep/" * 25 + "honest.rs", "kind": "file", "content": "honest long path"},
             {"path": f"{pre}/short2.rs", "long_name": f"{pre}/" + "d2/" * 40 + "honest.rs", "pax": True, "kind": "file", "content": "honest pax path"},
             {"path": f"{pre}/innocent3.rs", "long_name": "other-1.0.0/pax.rs", "pax": True, "kind": "file", "content": "overwritten via pax"},
+            # entries of a rare type the archive reader unpacks like regular files (type flag '7')
+            {"path": f"{pre}/.cargo-ok", "kind": "contiguous", "content": "ok"},
+            {"path": f"{pre}/.cargo-ok", "kind": "contiguous", "content": "ok"},
+            {"path": f"{pre}/contig.rs", "kind": "contiguous", "content": "a contiguous file"},
         ]
         for e in rng.sample(pool, rng.choice([1, 1, 2, 3])):
             hostile.append(e)
@@ -2038,6 +2292,10 @@ def gen_unpack_case(rng, cid):
         sub = [i for i, e in enumerate(entries) if e["path"].startswith(link + "/")]
         if idx and sub and sub[0] < idx[0]:
             entries[idx[0]], entries[sub[0]] = entries[sub[0]], entries[idx[0]]
+    if any(e["path"].endswith(".cargo-ok") for e in entries) and rng.random() < 0.6:
+        mk = next(e for e in entries if e["path"].endswith(".cargo-ok"))
+        entries.remove(mk)
+        entries.insert(0, mk)
     case = {"id": cid, "kind": "unpack", "name": name, "version": version, "entries": entries}
     if rng.random() < 0.35:
         # what an earlier interrupted unpack (or an old cargo) may have left: a marker that does NOT say "ok" (empty,
@@ -2066,6 +2324,9 @@ def gen_lock_case(rng, cid):
         users.append({"role": role,
                       "start_us": rng.randrange(0, 300) if burst else rng.randrange(0, 4000),
                       "think_us": rng.choice([0, 0, 50, 200, 800, 2000, 5000])})
+    for u in users:
+        if u["role"] == "cache" and rng.random() < 0.25:
+            u["clean"] = True           # `cargo vet gc --clean` while holding the cache
     if rng.random() < 0.4:
         # `--locked` is a global option: invocations that run with it load and COMMIT all the same
         flags = rng.choice(["all", "some"])
